@@ -87,7 +87,24 @@ def build(tier):
         for (op, ar) in OPS:
             for ext in (False, True):
                 if ext and pp in ("cop", "bic") : continue     # no specials to handle: the ext layer is the native layer
-                if w >= 32 and op in HEAVY: continue            # TODO bounded stand-ins
+                if w >= 32 and op in HEAVY:
+                    # wide multiplication / division circuits are beyond every installed SAT back end on the full domain
+                    # (DESIGN.md section 2.6): bounded stand-ins, one operand at a time restricted to |v| < 2^B, labelled bounded
+                    if ext: continue
+                    sg = TYPES[tt][2]
+                    # one operand ranges over a fixed set of constants (small, large, both signs, near the limits), the others are arbitrary
+                    consts = [1, 2, 3, 7, 10, 114, 1 << 15, (1 << (w - 2)) + 1, (1 << (w - 1)) - 3] + ([0] if op in ("mul", "add_mul", "sub_mul") else [])
+                    if sg: consts = consts + [-c for c in consts if c != 0]
+                    def among(v): return "(" + " || ".join("(int%d_t)%s == (int%d_t)%dLL" % (w, v, w, c) if sg else "%s == %dULL" % (v, c) for c in consts) + ")"
+                    note = "restricted to the constants {%s}" % ", ".join(str(c) for c in consts)
+                    if op == "sqrt":
+                        tasks.append(op_task(u, tt, pp, op, ar, ext, extra_pre="x < (1ULL << 16)" if not sg else "(int%d_t)x < 65536" % w, tag="bounded-x", bounded={"note": "operand below 2^16"}, timeout=1500))
+                        continue
+                    if w == 64 and op in ("div", "idiv", "rem"): continue   # 64-bit divider: no back end finishes even for constant divisors (not covered, stated)
+                    tasks.append(op_task(u, tt, pp, op, ar, ext, extra_pre=among("y"), tag="bounded-y", bounded={"note": "second operand " + note + "; first operand and accumulator arbitrary"}, timeout=1500))
+                    if op in ("mul", "add_mul", "sub_mul") and w < 64:     # at 64 bits `MAX / y' with symbolic y does not finish
+                        tasks.append(op_task(u, tt, pp, op, ar, ext, extra_pre=among("x"), tag="bounded-x", bounded={"note": "first operand " + note + "; second operand and accumulator arbitrary"}, timeout=1500))
+                    continue
                 tasks.append(op_task(u, tt, pp, op, ar, ext))
         for (op, ar, ext) in PREDS:
             tasks.append(op_task(u, tt, pp, op, ar, ext))
